@@ -790,6 +790,14 @@ def run(ctx):
             else:
                 print("replay: the routes agree / the model agrees on this tree (no violation)")
             return
+        if "c14-lowfd" in text:
+            from .. import lowfd
+            import tempfile, shutil
+            tmp = tempfile.mkdtemp(prefix="c14-", dir="/var/tmp")
+            try:
+                return lowfd.replay(ctx, ctx.replay, {"TMPDIR": tmp, "SFH_SCRATCH": tmp})
+            finally:
+                shutil.rmtree(tmp, ignore_errors=True)
         return ctx.replay_script(ctx.replay)
     quick = ctx.tier == "quick"
     ctx.run_regressions()
@@ -822,6 +830,13 @@ def run(ctx):
     found |= stream_truncate(ctx, consts, alive)
     from .. import closeown                          # descriptor ownership at sf_close when a close handler reports a problem (VOX clipping count, close under EFBIG)
     found |= closeown.run(ctx)
+    from .. import lowfd                             # descriptors 0 / 1 free: ownership at sf_close must not depend on the descriptor's number (harness/lowfd.c, Sf.FdWorldLow)
+    import tempfile, shutil
+    tmp = tempfile.mkdtemp(prefix="c14-", dir="/var/tmp")
+    try:
+        found |= lowfd.run(ctx, {"TMPDIR": tmp, "SFH_SCRATCH": tmp})
+    finally:
+        shutil.rmtree(tmp, ignore_errors=True)
     from .. import shortio                           # read () / write () interposed: short transfers and EINTR on the descriptor routes against virtual I/O
     found |= bool(shortio.run(ctx, "C14").get("failures"))
 
